@@ -65,6 +65,13 @@ type RemoteTemplate struct {
 	requireSchemaExists bool
 }
 
+// remoteTemplateCacheKey is the key of a RemoteTemplate in the per-run cache.
+// A RemoteTemplate is the pair (template URL, schema URL); neither URL can
+// contain a NUL byte, so the key is unambiguous.
+func remoteTemplateCacheKey(templateURL string, schemaURL string) string {
+	return templateURL + "\x00" + schemaURL
+}
+
 func NewRemoteTemplate(templateURL string, schemaURL string) *RemoteTemplate {
 	return &RemoteTemplate{
 		templateURL: templateURL,
